@@ -437,7 +437,7 @@ def ev_fd(case):
         tags.add(f"fd {case['pot']} d={d} {bcl} {kind} T={T}")
     # ---- trajectories of the gradient-free chain: energy converges (down to the accuracy of the estimate)
     L = momentum_law(chain, d, mclass, fails, slack)
-    if L is not None and case.get("traj", True):
+    if case.get("traj", True) and L is not None:
         wmax = math.sqrt(P.max_curvature(2.5) * float(np.linalg.eigvalsh(IM).max()) / T)
         eps = case["eps_rel"] / wmax
         n = case["n"]
@@ -485,21 +485,21 @@ def run(ck):
         for mass in R.MASSES:
             for b in R.BOUNDS:
                 if quick:
-                    # quick: every (d, mass, bounds) with the other four axes covered by two rotating Latin slices
-                    for j in range(2 if d < 3 else 1):
+                    # quick: every (d, mass, bounds) with 5 (d=3: 2) of the 96 combinations of the other four axes, rotated by seed
+                    for j in range(5 if d < 3 else 2):
                         k += 1
-                        q = seed + k
-                        er = EPS_RELS[(q + j) % 3]
-                        n = [5, 20][(q // 3 + j) % 2] if b == "tight" else NS[(q + 2 * j) % 4]
-                        cases.append({"pot": R.POTENTIALS[(q + j) % 4], "d": d, "T": TS[(q + j) % 2], "n": n, "mass": mass, "bounds": b, "eps_rel": er, "seed": seed, "quick": True})
+                        idx = (seed * 37 + k * 13 + j * 29) % 96
+                        pot, er, T = R.POTENTIALS[idx % 4], EPS_RELS[(idx // 4) % 3], TS[(idx // 12) % 2]
+                        n = ([5, 20, 5, 20] if b == "tight" else NS)[(idx // 24) % 4]
+                        cases.append({"pot": pot, "d": d, "T": T, "n": n, "mass": mass, "bounds": b, "eps_rel": er, "seed": seed, "quick": True})
                 else:
                     for pot in R.POTENTIALS:
                         for er in EPS_RELS:
                             for n in NS:
                                 for T in TS:
                                     cases.append({"pot": pot, "d": d, "T": T, "n": n, "mass": mass, "bounds": b, "eps_rel": er, "seed": seed, "quick": False})
-    # heavy first so the pool stays busy
-    cases.sort(key=lambda c: -(c["d"] ** 2) * c["n"])
+    # simplest first (the first counterexample recorded is then the smallest)
+    cases.sort(key=lambda c: (c["d"], c["n"], R.MASSES.index(c["mass"]), R.BOUNDS.index(c["bounds"])))
     ck.run_cases("traj", cases, chunk=1)
     # ---- acceptance rule
     acases = []
@@ -518,19 +518,19 @@ def run(ck):
     fcases = []
     k = 0
     for d in DS:
-        for b in ["none", "tight"]:
+        for b in R.BOUNDS:
             for T in TS:
                 for pot in R.POTENTIALS:
                     k += 1
                     masses = R.MASSES if not quick else [R.MASSES[(seed + k) % 5]]
                     for mass in masses:
-                        fcases.append({"pot": pot, "d": d, "T": T, "mass": mass, "bounds": b if b == "none" else ["wide", "tight"][k % 2] if False else b,
-                                       "eps_rel": 0.3, "n": 5, "seed": seed, "traj": b == "none" or True})
+                        # trajectories of the gradient-free chain only where no wall is met (folds are the business of "traj")
+                        fcases.append({"pot": pot, "d": d, "T": T, "mass": mass, "bounds": b, "eps_rel": 0.3, "n": 5, "seed": seed, "traj": b != "tight"})
     ck.run_cases("fd", fcases, chunk=1)
     ck.rule = (
         "potential {diag, corr, quartic, sharp(log cosh)} x d {1,2,3} x step (relative to the stiffest frequency) {.01,.1,.3} x n {1,2,5,20} x T {1,2.5} x "
         "mass {default, scalar .3, vector, matrix-diagonal, matrix-full} x bounds {none, wide, tight}; thorough = full product, quick = every (d, mass, bounds) "
-        "with the remaining axes in seed-rotated Latin slices; per configuration the lattice (t0 in {-.4,.1,.55}^d) x (r0 = L z, z in {-1.2,.7}^d scaled per axis) "
+        "with 5 (d=3: 2) seed-rotated combinations of the remaining axes; per configuration the lattice (t0 in {-.4,.1,.55}^d) x (r0 = L z, z in {-1.2,.7}^d scaled per axis) "
         "(d=3: the third of the t0 lattice with index sum = seed mod 3). A configuration is distinct by (potential, d, wall class free/bounded/bounded-folded, mass class, T, n, step); "
         "wall-free vs folded is decided with the unbounded twin of the chain at eps, eps/2, eps/4. accept: scripted generator, u on both sides (1e-6) of every threshold; "
         "fd: gradient lattice {-.4,0,1e-6,.55}^d (free) / {lower,-.4,0,.55,upper}^d (bounded)."
